@@ -281,6 +281,11 @@ func negotiateFeatures(ctx context.Context, s *Session, first, ws bool, features
 			s.state |= mask
 		}
 		s.negotiated[data.feature.Name.Space] = struct{}{}
+		if err != nil {
+			// Never carry on after a failed feature, required or not: the error
+			// would be overwritten by the next iteration and silently dropped.
+			return mask, nil, err
+		}
 
 		// If we negotiated a required feature or a stream restart is required
 		// we're done with this feature set.
